@@ -497,3 +497,25 @@ func failEdge(b *cfg.Block, isG func(ast.Expr) bool) (int, ast.Expr, bool) {
 }
 
 type cfgBlk = cfg.Block
+
+// srcOf prints any node (statements, clauses, blocks) as normalised source text.
+func srcOf(n ast.Node) string {
+	if n == nil {
+		return ""
+	}
+	if cc, ok := n.(*ast.CaseClause); ok { // not printable on its own
+		var parts []string
+		for _, e := range cc.List {
+			parts = append(parts, exprStr(e))
+		}
+		for _, s := range cc.Body {
+			parts = append(parts, srcOf(s))
+		}
+		return strings.Join(parts, " ; ")
+	}
+	var buf bytes.Buffer
+	if err := printer.Fprint(&buf, token.NewFileSet(), n); err != nil {
+		return ""
+	}
+	return strings.Join(strings.Fields(buf.String()), " ")
+}
